@@ -13,7 +13,11 @@
 
 package frugal
 
-import "time"
+import (
+	"time"
+
+	"github.com/apache/thrift/lib/go/thrift"
+)
 
 // FTransportMonitor watches and heals an FTransport. It exposes a number of
 // hooks which can be used to add logic around FTransport events, such as
@@ -117,6 +121,17 @@ func (r *monitorRunner) run() {
 	}
 }
 
+// isAlreadyOpen reports whether Open failed only because the transport is
+// open. The close this runner is handling was signalled while it was busy
+// with an earlier one and has been repaired since (by its own reopen or by
+// the application): the transport is open, which is all a reopen is for.
+// Counting it as a failed attempt would use up the attempts on an open
+// transport and end the runner, leaving that transport unmonitored.
+func isAlreadyOpen(err error) bool {
+	te, ok := err.(thrift.TTransportException)
+	return ok && te.TypeId() == TRANSPORT_EXCEPTION_ALREADY_OPEN
+}
+
 // Handle a clean close of the transport.
 func (r *monitorRunner) handleCleanClose() {
 	logger().Info("frugal: FTransportMonitor signaled FTransport was closed cleanly. Terminating...")
@@ -146,7 +161,7 @@ func (r *monitorRunner) attemptReopen(InitialWait time.Duration) bool {
 		logger().Infof("frugal: FTransportMonitor attempting to reopen after %v", wait)
 		time.Sleep(wait)
 
-		if err := r.transport.Open(); err != nil {
+		if err := r.transport.Open(); err != nil && !isAlreadyOpen(err) {
 			logger().Errorf("frugal: FTransportMonitor failed to re-open transport due to: %v", err)
 			prevAttempts++
 
